@@ -544,7 +544,7 @@ def add_exotics(rng: random.Random, form: dict, kinds, p=0.5) -> list[str]:
     survey = form["survey"]
     langs, delim = form_langs(form)
     applied = []
-    qnames = [r["name"] for r in survey if r.get("name") and not r["type"].startswith(("begin", "end"))]
+    qnames = [r["name"] for r in survey if r.get("name") and not r.get("type", "").startswith(("begin", "end"))]
     for kind in kinds:
         if rng.random() > p:
             continue
@@ -595,9 +595,9 @@ def add_exotics(rng: random.Random, form: dict, kinds, p=0.5) -> list[str]:
                 continue
         elif kind == "empty_group":
             k = rng.choice(["group", "repeat"])
-            survey.insert(rng.randint(0, len(survey)) if all(not r["type"].startswith(("begin", "end")) for r in survey) else len(survey),
+            survey.insert(rng.randint(0, len(survey)) if all(not r.get("type", "").startswith(("begin", "end")) for r in survey) else len(survey),
                           {"type": f"begin {k}", "name": _fresh(form, "eg"), "label": "Empty"})
-            idx = next(i for i, r in enumerate(survey) if r.get("name", "").startswith("eg") and r["type"] == f"begin {k}" and (i + 1 == len(survey) or not survey[i + 1]["type"].startswith("end") or True))
+            idx = next(i for i, r in enumerate(survey) if r.get("name", "").startswith("eg") and r.get("type") == f"begin {k}" and (i + 1 == len(survey) or not survey[i + 1].get("type", "").startswith("end") or True))
             survey.insert(idx + 1, {"type": f"end {k}"})
         elif kind == "bad_choice_col":
             ch = form.get("choices") or []
@@ -615,20 +615,20 @@ def add_exotics(rng: random.Random, form: dict, kinds, p=0.5) -> list[str]:
             row = {"type": "audit", "name": "audit"}
             if rng.random() < 0.5:
                 row["parameters"] = rng.choice(["track-changes=true", "location-priority=balanced location-min-interval=60 location-max-age=120", "identify-user=true"])
-            survey.insert(rng.randint(0, len(survey)) if all(not r["type"].startswith(("begin", "end")) for r in survey) else 0, row)
+            survey.insert(rng.randint(0, len(survey)) if all(not r.get("type", "").startswith(("begin", "end")) for r in survey) else 0, row)
         elif kind == "count_expr":
             if len(qnames) < 1:
                 continue
             a, b = rng.choice(qnames), rng.choice(qnames)
             expr = rng.choice([f"${{{a}}} + ${{{b}}}", f"${{{a}}} * ${{{b}}}", f"${{{a}}}", f"${{{a}}} + 1", f"count(${{{a}}})", "2", f"${{{a}}}-${{{b}}}"])
-            reps = [r for r in survey if r["type"].startswith("begin") and "repeat" in r["type"]]
+            reps = [r for r in survey if r.get("type", "").startswith("begin") and "repeat" in r.get("type", "")]
             if reps and rng.random() < 0.5:
                 tgt = rng.choice(reps)
                 i0 = survey.index(tgt)
                 inside = set()
                 depth = 0
                 for r in survey[i0:]:
-                    depth += r["type"].startswith("begin") - r["type"].startswith("end")
+                    depth += r.get("type", "").startswith("begin") - r.get("type", "").startswith("end")
                     if r.get("name"):
                         inside.add(r["name"])
                     if depth == 0:
